@@ -231,8 +231,11 @@ class Receiver:
                     TaskiqState: self.broker.state,
                 },
             )
+            # Every execution gets its own snapshot of the context, so that
+            # dependencies resolved later (e.g. not cached ones) can't see
+            # the Context of another message processed concurrently.
             dep_ctx = dependency_graph.async_ctx(
-                broker_ctx,
+                dict(broker_ctx),
                 self.broker.dependency_overrides or None,
             )
             # Resolve all function's dependencies.
